@@ -72,6 +72,7 @@ Local Notation lo := (f0_leftover fb).
 Local Notation prod := (f0_cprod fb).
 Local Notation ubi := (f0_ubi fb).
 Local Notation S0 := (code_sem fb).
+Local Notation K := (the_crossing fb ++ f0_ubs fb ++ f0_ubi fb).
 
 (** all rounds of a key, each with its number of trials *)
 Definition all_rounds (k : key) : list (nat * comp) :=
@@ -111,11 +112,11 @@ Proof.
 Qed.
 
 
-Lemma decoded_row_length k g : key_ok fb k -> In g (fl_act fb) -> length (decoded_row fb k g) = T.
+Lemma decoded_row_length k g : key_ok fb k -> In g K -> length (decoded_row fb k g) = T.
 Proof.
   intros Hk Hg. rewrite decoded_row_rounds. rewrite <- (sum_rounds k Hk).
   apply flat_map_length_sum. intros rc Hrc. destruct (all_rounds_ok k Hk rc Hrc) as (Hle & _ & Hok).
-  apply (round_row_length fb HF Hq); [exact Hle | exact Hok | apply (K_In fb HF Hq); exact Hg].
+  apply (round_row_length fb HF Hq); [exact Hle | exact Hok | exact Hg].
 Qed.
 
 (** every cell of a decoded row is a level of the factor *)
@@ -146,11 +147,11 @@ Proof.
 Qed.
 
 (** every cell of a round carries a level of its factor; outside the source factors an admitted one *)
-Lemma round_row_cells tc cp g : tc <= C -> comp_ok fb tc cp -> In g (fl_act fb) ->
+Lemma round_row_cells tc cp g : tc <= C -> comp_ok fb tc cp -> In g K ->
   Forall (fun cell => exists l, cell = Some l /\ l < nlevels fb g /\
                                 (~ In g (f0_ubs fb) -> ~ In (FExclude g l) (fl_constraints fb))) (round_row fb tc cp g).
 Proof.
-  intros Hle Hok Hg. apply (K_In fb HF Hq) in Hg. apply in_app_iff in Hg.
+  intros Hle Hok Hg. apply in_app_iff in Hg.
   destruct cp as [[c0 c1] c2]. pose proof Hok as (Hc0 & Hdef & _ & Hc2).
   destruct (perm_of_spec fb HF Hq tc c0 Hle Hc0 Hdef) as (_ & Hpl & Hpb & _).
   destruct Hg as [Hg | Hg]; [|apply in_app_iff in Hg; destruct Hg as [Hg | Hg]].
@@ -192,7 +193,7 @@ Proof.
 Qed.
 
 
-Lemma decoded_row_cells k g : key_ok fb k -> In g (fl_act fb) ->
+Lemma decoded_row_cells k g : key_ok fb k -> In g K ->
   Forall (fun cell => exists l, cell = Some l /\ l < nlevels fb g /\
                                 (~ In g (f0_ubs fb) -> ~ In (FExclude g l) (fl_constraints fb))) (decoded_row fb k g).
 Proof.
@@ -208,12 +209,86 @@ Proof.
   - apply IH. intros cl Hc. apply H. right. exact Hc.
 Qed.
 
-Lemma decoded_row_not_excluded k g l : key_ok fb k -> In g (fl_act fb) -> ~ In g (f0_ubs fb) ->
+Lemma decoded_row_not_excluded k g l : key_ok fb k -> In g K -> ~ In g (f0_ubs fb) ->
   In (FExclude g l) (fl_constraints fb) -> count_level l (decoded_row fb k g) = 0.
 Proof.
   intros Hk Hg Hns Hex. apply count_level_none. intros cell Hc E.
   pose proof (decoded_row_cells k g Hk Hg) as Hcells. rewrite Forall_forall in Hcells.
   destruct (Hcells cell Hc) as (l' & El & _ & Hne). subst cell. inversion El; subst. apply (Hne Hns). exact Hex.
+Qed.
+
+(** * The derived factors outside the sampled crossing: filled in from the drawn rows *)
+Lemma K_cell k g t : key_ok fb k -> In g K -> t < T -> exists l, nth t (decoded_row fb k g) None = Some l /\ l < nlevels fb g.
+Proof.
+  intros Hk Hg Ht. pose proof (decoded_row_cells k g Hk Hg) as Hcells.
+  pose proof (Forall_nth' _ _ t None Hcells ltac:(rewrite decoded_row_length by assumption; lia)) as [l [El [Hl _]]].
+  exists l. auto.
+Qed.
+
+Lemma find_ext_in {A} (p q0 : A -> bool) l : (forall x, In x l -> p x = q0 x) -> find p l = find q0 l.
+Proof.
+  induction l as [|x t IH]; intros H; [reflexivity|]. cbn [find]. rewrite (H x (or_introl eq_refl)).
+  destruct (q0 x); [reflexivity|]. apply IH. intros y Hy. apply H. right. exact Hy.
+Qed.
+
+(** the window of such a factor reads drawn factors; exactly one of its levels accepts what it reads *)
+Lemma ucd_kind g : In g (f0_ucdl fb) ->
+  exists d w, factor_at fb g = Some d /\ ff_window d = Some w /\ (forall x, In x (win_deps w) -> In x K) /\ tables_exact fb g w = true.
+Proof.
+  intros Hg. apply (ucdl_In fb HF Hq) in Hg. destruct Hg as (Ha & Hnc & Hd).
+  destruct (f0_act_kind fb HF g Ha) as [H | [[H _] | (_ & d & w & Hfa & Hw & _ & _ & _ & Hdeps & Hex)]]; [congruence | contradiction|].
+  exists d, w. split; [exact Hfa|]. split; [exact Hw|]. split; [|exact Hex].
+  intros x Hx. apply (K_In fb HF Hq). destruct (Hdeps x Hx) as [H1 [H2 | H2]]; auto.
+Qed.
+
+Lemma ucd_pick_spec k g t : key_ok fb k -> In g (f0_ucdl fb) -> t < T ->
+  exists l0, ucd_pick fb (decoded_row fb k) g t = Some l0 /\ l0 < nlevels fb g.
+Proof.
+  intros Hk Hg Ht. destruct (ucd_kind g Hg) as (d & w & Hfa & Hw & Hdeps & Hex).
+  unfold ucd_pick, window_of. rewrite Hfa, Hw.
+  assert (Hargs : exists args, map (fun x => [nth t (decoded_row fb k x) None]) (win_deps w) = map (fun a => [Some a]) args /\
+                               In args (product (map (all_levels fb) (win_deps w)))).
+  { clear Hw Hex. induction (win_deps w) as [|x xs IH].
+    - exists []. split; [reflexivity | left; reflexivity].
+    - destruct IH as (args & E & Hin); [intros y Hy; apply Hdeps; right; exact Hy|].
+      destruct (K_cell k x t Hk (Hdeps x (or_introl eq_refl)) Ht) as (l & El & Hl).
+      exists (l :: args). cbn [map]. rewrite El, E. split; [reflexivity|].
+      cbn [product]. apply in_flat_map. exists l. split; [unfold all_levels; apply in_seq; lia|].
+      apply in_map. exact Hin. }
+  destruct Hargs as (args & Eargs & Hin). rewrite Eargs.
+  unfold tables_exact in Hex. rewrite forallb_forall in Hex. specialize (Hex args Hin). apply Nat.eqb_eq in Hex.
+  destruct (filter (fun l => predicate fb g l (map (fun a => [Some a]) args)) (all_levels fb g)) as [|l0 rest] eqn:Ef; [discriminate|].
+  assert (Hl0 : In l0 (filter (fun l => predicate fb g l (map (fun a => [Some a]) args)) (all_levels fb g))) by (rewrite Ef; left; reflexivity).
+  apply filter_In in Hl0. destruct Hl0 as [Hl0 Hp0].
+  destruct (find (fun l => predicate fb g l (map (fun a => [Some a]) args)) (all_levels fb g)) as [l1|] eqn:Efind.
+  - exists l1. split; [reflexivity|]. apply find_some in Efind. destruct Efind as [H1 _]. unfold all_levels in H1. apply in_seq in H1. lia.
+  - pose proof (find_none _ _ Efind l0 Hl0) as Hn. cbv beta in Hn. congruence.
+Qed.
+
+Lemma cand_row_ucd k g : In g (f0_ucdl fb) ->
+  cand_row fb k g = map (fun t => ucd_pick fb (decoded_row fb k) g t) (seq 0 T).
+Proof. intros Hg. unfold cand_row. rewrite (proj2 (memb_In g (f0_ucdl fb)) Hg). reflexivity. Qed.
+
+(** the whole row of every factor of [act_design] *)
+Lemma cand_row_length k g : key_ok fb k -> In g (fl_act fb) -> length (cand_row fb k g) = T.
+Proof.
+  intros Hk Hg. destruct (K_or_ucd fb HF Hq g Hg) as [HK | Hu].
+  - rewrite (cand_row_K fb HF Hq) by (apply (K_not_ucd fb HF Hq); exact HK). apply decoded_row_length; assumption.
+  - rewrite (cand_row_ucd k g Hu). rewrite map_length, seq_length. reflexivity.
+Qed.
+
+Lemma cand_row_cells k g : key_ok fb k -> In g (fl_act fb) ->
+  Forall (fun cell => exists l, cell = Some l /\ l < nlevels fb g /\
+                                (has_derived fb = false -> ~ In (FExclude g l) (fl_constraints fb))) (cand_row fb k g).
+Proof.
+  intros Hk Hg. destruct (K_or_ucd fb HF Hq g Hg) as [HK | Hu].
+  - rewrite (cand_row_K fb HF Hq) by (apply (K_not_ucd fb HF Hq); exact HK).
+    pose proof (decoded_row_cells k g Hk HK) as H. rewrite Forall_forall in *. intros cell Hc.
+    destruct (H cell Hc) as (l & E & Hl & Hne). exists l. split; [exact E|]. split; [exact Hl|].
+    intros Hnd. apply Hne. destruct (f0_no_derived_sf fb HF Hnd) as (_ & _ & Hubs & _). rewrite Hubs. intros [].
+  - rewrite (cand_row_ucd k g Hu). apply Forall_forall. intros cell Hc. apply in_map_iff in Hc. destruct Hc as [t [E Ht]].
+    apply in_seq in Ht. destruct (ucd_pick_spec k g t Hk Hu ltac:(lia)) as (l0 & Ep & Hl). exists l0.
+    split; [rewrite <- E; exact Ep|]. split; [exact Hl|]. intros Hnd. rewrite (f0_no_derived_ucd fb HF Hnd) in Hu. destruct Hu.
 Qed.
 
 (** counting a combination in a block built from a duplicate-free index list *)
@@ -237,15 +312,30 @@ Qed.
 Variable k : key.
 Hypothesis Hk : key_ok fb k.
 Variable r : run.
-Hypothesis Hr : forall g, row_of_run r g = decoded_row fb k g.
+Hypothesis Hr : forall g, row_of_run r g = cand_row fb k g.
 Local Notation s := (tseq_of_run fb r).
 
-Lemma tseq_row g : g < n -> nth g s [] = decoded_row fb k g.
+Lemma tseq_row_all g : g < n -> nth g s [] = cand_row fb k g.
 Proof.
   intros Hg. unfold tseq_of_run.
   change (fun f : nat => match rlookup r f with Some row => row | None => [] end) with (row_of_run r).
   rewrite nth_indep with (d' := row_of_run r 0) by (rewrite map_length, seq_length; exact Hg).
   rewrite map_nth. rewrite seq_nth by exact Hg. apply Hr.
+Qed.
+
+Lemma K_act g : In g K -> In g (fl_act fb).
+Proof. intros H. apply (K_In fb HF Hq) in H. apply H. Qed.
+
+Lemma K_basic g : In g (fl_act fb) -> is_derived fb g = false -> In g K.
+Proof. intros H1 H2. apply (K_In fb HF Hq). auto. Qed.
+
+Lemma K_crossed g : In g c -> In g K.
+Proof. intros H. apply in_app_iff. left. exact H. Qed.
+
+(** the rows of the drawn factors *)
+Lemma tseq_row g : In g K -> nth g s [] = decoded_row fb k g.
+Proof.
+  intros Hg. rewrite tseq_row_all by (apply (act_lt fb HF), K_act; exact Hg). apply (cand_row_K fb HF Hq). apply (K_not_ucd fb HF Hq). exact Hg.
 Qed.
 
 Lemma tseq_length : length s = n.
@@ -256,12 +346,13 @@ Lemma f0_factor_ok f fd : In f (fl_act fb) -> is_derived fb f = false -> nth_err
   factor_ok S0 s f fd = held fb s f.
 Proof.
   intros Hact Hnd Hfd. destruct (f0_sem_factor fb HF f fd Hact Hfd) as (Hf & Hnl & Hsu & Hder). specialize (Hder Hnd).
-  unfold factor_ok, held. rewrite tseq_row by exact Hf. rewrite decoded_row_length by assumption.
+  pose proof (K_basic f Hact Hnd) as HK.
+  unfold factor_ok, held. rewrite tseq_row by exact HK. rewrite decoded_row_length by assumption.
   rewrite (f0_sem_trials fb HF), Nat.eqb_refl. cbn [andb].
   apply forallb_ext_in'. intros t Ht. apply in_seq in Ht.
-  pose proof (decoded_row_cells k f Hk Hact) as Hcells.
+  pose proof (decoded_row_cells k f Hk HK) as Hcells.
   pose proof (Forall_nth' _ _ t None Hcells ltac:(rewrite decoded_row_length by assumption; lia)) as [l [El [Hl _]]].
-  assert (Ec : get_cell s f t = Some l) by (unfold get_cell; rewrite tseq_row by exact Hf; exact El).
+  assert (Ec : get_cell s f t = Some l) by (unfold get_cell; rewrite tseq_row by exact HK; exact El).
   rewrite Ec. unfold applies. rewrite Hder, Hnl, Hsu.
   replace (l <? nlevels fb f) with true by (symmetry; apply Nat.ltb_lt; exact Hl). cbn [andb]. rewrite andb_true_r. reflexivity.
 Qed.
@@ -319,35 +410,36 @@ Proof.
   specialize (H tv (or_introl eq_refl)). destruct (alookup tv g); [reflexivity | contradiction].
 Qed.
 
-(** the cell of a factor of [act_design] in a trial is the entry of the trial's dictionary *)
-Lemma cell_tv g t : In g (fl_act fb) -> t < T -> get_cell s g t = alookup (nth t all_tvs []) g.
+(** the cell of a drawn factor in a trial is the entry of the trial's dictionary *)
+Lemma cell_tv g t : In g K -> t < T -> get_cell s g t = alookup (nth t all_tvs []) g.
 Proof.
-  intros Hg Ht. unfold get_cell. rewrite tseq_row by (apply (act_lt fb HF); exact Hg). rewrite decoded_row_tvs.
+  intros Hg Ht. unfold get_cell. rewrite tseq_row by exact Hg. rewrite decoded_row_tvs.
   rewrite cells_for_all.
   - rewrite (nth_indep _ None (alookup [] g)) by (rewrite map_length, all_tvs_length; exact Ht).
     apply (map_nth (fun tv => alookup tv g)).
   - intros tv Htv. destruct (all_tvs_shape tv Htv) as (_ & _ & _ & _ & _ & _ & _ & Hkeys). apply alookup_key.
-    rewrite Hkeys. apply (K_In fb HF Hq). exact Hg.
+    rewrite Hkeys. exact Hg.
 Qed.
 
 Lemma alookup_prefix (ab rest : asg) g : alookup ab g <> None -> alookup (ab ++ rest) g = alookup ab g.
 Proof. intros H. rewrite alookup_app. destruct (alookup ab g); [reflexivity | contradiction]. Qed.
 
 (** a derived factor of the crossing passes its check: the source combination of every trial was admitted for the instance *)
-Lemma f0_crossed_derived_ok f fd : In f (fl_act fb) -> is_derived fb f = true -> nth_error (s_factors S0) f = Some fd ->
+Lemma f0_crossed_derived_ok f fd : In f c -> is_derived fb f = true -> nth_error (s_factors S0) f = Some fd ->
   factor_ok S0 s f fd = true.
 Proof.
-  intros Hact Hdf Hfd. destruct (f0_sem_factor fb HF f fd Hact Hfd) as (Hf & Hnl & Hsu & _).
-  destruct (f0_sem_crossed_derived fb HF f fd Hact Hdf Hfd) as (Hfc & d & w & Hd & Hw & Hder & Hdeps).
+  intros Hfc0 Hdf Hfd. pose proof (f0_cact_main fb HF f Hfc0) as Hact. pose proof (K_crossed f Hfc0) as HK.
+  destruct (f0_sem_factor fb HF f fd Hact Hfd) as (Hf & Hnl & Hsu & _).
+  destruct (f0_sem_crossed_derived fb HF f fd Hfc0 Hdf Hfd) as (Hfc & d & w & Hd & Hw & Hder & Hdeps).
   rewrite (f0_sustain_main fb HF f Hfc) in Hsu.
   set (dw := {| w_deps := win_deps w; w_width := 1; w_stride := 1; w_start := 0; w_table := map lv_accepts (ff_levels d) |}) in *.
-  unfold factor_ok. rewrite tseq_row by exact Hf. rewrite decoded_row_length by assumption.
+  unfold factor_ok. rewrite tseq_row by exact HK. rewrite decoded_row_length by assumption.
   rewrite (f0_sem_trials fb HF), Nat.eqb_refl. cbn [andb].
   apply forallb_forall. intros t Ht. apply in_seq in Ht.
   assert (HtT : t < T) by lia.
-  pose proof (decoded_row_cells k f Hk Hact) as Hcells.
+  pose proof (decoded_row_cells k f Hk HK) as Hcells.
   pose proof (Forall_nth' _ _ t None Hcells ltac:(rewrite decoded_row_length by assumption; lia)) as [l [El [Hl _]]].
-  assert (Ec : get_cell s f t = Some l) by (unfold get_cell; rewrite tseq_row by exact Hf; exact El).
+  assert (Ec : get_cell s f t = Some l) by (unfold get_cell; rewrite tseq_row by exact HK; exact El).
   rewrite Ec. rewrite (applies_within fd dw Hder eq_refl eq_refl Hsu t). rewrite Hsu, Nat.div_1_r, Nat.mul_1_r, Ec, Hnl.
   cbn [cell_eqb andb]. rewrite Nat.eqb_refl.
   replace (l <? nlevels fb f) with true by (symmetry; apply Nat.ltb_lt; exact Hl). cbn [andb]. rewrite Hder.
@@ -362,10 +454,42 @@ Proof.
   destruct (Hm f Hfcd) as [[lf Hlf] (w0 & Hw0 & Hdl)].
   assert (Ew0 : w0 = w) by (unfold window_of in Hw0; rewrite Hd, Hw in Hw0; inversion Hw0; reflexivity). subst w0.
   assert (Elf : lf = l).
-  { pose proof (cell_tv f t Hact HtT) as H. rewrite Ec, Etv in H. rewrite alookup_prefix in H by (rewrite Hlf; discriminate). congruence. }
+  { pose proof (cell_tv f t HK HtT) as H. rewrite Ec, Etv in H. rewrite alookup_prefix in H by (rewrite Hlf; discriminate). congruence. }
   subst lf. specialize (Hok f l w Hfcd Hlf Hw0). rewrite <- Hok. f_equal.
-  apply map_ext_in. intros x Hx. destruct (Hdeps x Hx) as [Hxa _]. rewrite (cell_tv x t Hxa HtT), Etv.
+  apply map_ext_in. intros x Hx. destruct (Hdeps x Hx) as [Hxa Hxd]. rewrite (cell_tv x t (K_basic x Hxa Hxd) HtT), Etv.
   rewrite alookup_prefix; [reflexivity|]. destruct (Hdl x Hx) as [a Ha]. rewrite Ha. discriminate.
+Qed.
+
+(** * The derived factors outside the sampled crossing: filled in from the drawn rows *)
+Lemma ucd_cell g t : In g (f0_ucdl fb) -> t < T -> get_cell s g t = ucd_pick fb (decoded_row fb k) g t.
+Proof.
+  intros Hg Ht. unfold get_cell.
+  rewrite tseq_row_all by (apply (act_lt fb HF); apply (ucdl_In fb HF Hq) in Hg; apply Hg).
+  rewrite (cand_row_ucd k g Hg).
+  rewrite (nth_indep _ None (ucd_pick fb (decoded_row fb k) g 0)) by (rewrite map_length, seq_length; exact Ht).
+  rewrite (map_nth (fun t0 => ucd_pick fb (decoded_row fb k) g t0)), seq_nth by exact Ht. reflexivity.
+Qed.
+
+(** such a factor passes its check *)
+Lemma f0_ucd_ok f fd : In f (f0_ucdl fb) -> nth_error (s_factors S0) f = Some fd -> factor_ok S0 s f fd = true.
+Proof.
+  intros Hu Hfd. pose proof Hu as Hu'. apply (ucdl_In fb HF Hq) in Hu'. destruct Hu' as (Hact & Hnc & Hdf).
+  destruct (f0_sem_ucd fb HF f fd Hact Hnc Hdf Hfd) as (d & w & Hd & Hw & Hnl & Hsu & Hder & Hdeps & Hex).
+  destruct (ucd_kind f Hu) as (d' & w' & Hd' & Hw' & HdepsK & _).
+  rewrite Hd in Hd'. inversion Hd'; subst d'. rewrite Hw in Hw'. inversion Hw'; subst w'.
+  set (dw := {| w_deps := win_deps w; w_width := 1; w_stride := 1; w_start := 0; w_table := map lv_accepts (ff_levels d) |}) in *.
+  assert (Hpick_eq : forall t, t < T -> pick fd dw s t = ucd_pick fb (decoded_row fb k) f t).
+  { intros t Ht. unfold pick, ucd_pick, window_of. rewrite Hd, Hw, Hnl.
+    rewrite (window_args_within fd dw eq_refl Hsu s t). cbn [w_deps dw]. unfold all_levels.
+    apply find_ext_in. intros l _. unfold dw. rewrite (sem_accepts_predicate fb HF f d _ _ _ _ l _ Hd). f_equal.
+    apply map_ext_in. intros x Hx. unfold get_cell. rewrite (tseq_row x (HdepsK x Hx)). reflexivity. }
+  assert (Hpick : forall t, t < s_trials S0 -> pick fd dw s t <> None).
+  { intros t Ht. rewrite (f0_sem_trials fb HF) in Ht. rewrite (Hpick_eq t Ht).
+    destruct (ucd_pick_spec k f t Hk Hu Ht) as (l0 & E & _). rewrite E. discriminate. }
+  apply (factor_ok_derived S0 f fd dw Hder eq_refl eq_refl eq_refl Hsu s s Hpick).
+  - intros x t _. reflexivity.
+  - rewrite tseq_row_all by (apply (act_lt fb HF); exact Hact). rewrite (cand_row_ucd k f Hu). rewrite (f0_sem_trials fb HF).
+    apply map_ext_in. intros t Ht. apply in_seq in Ht. symmetry. apply Hpick_eq. lia.
 Qed.
 
 (** * The crossing *)
@@ -427,7 +551,7 @@ Proof.
   rewrite <- (map_nth_seq (nth t all_combos []) 0) at 1. rewrite Hl, map_map.
   rewrite <- (map_nth_seq c 0) at 1. rewrite map_map. apply map_ext_in. intros i Hi. apply in_seq in Hi.
   assert (Hg : nth_error c i = Some (nth i c 0)) by (apply nth_error_nth_ok; lia).
-  assert (Hgn : nth i c 0 < n) by (apply (f0_range fb (f0_unpack fb HF)), nth_In; lia).
+  assert (Hgn : In (nth i c 0) K) by (apply K_crossed, nth_In; lia).
   unfold get_cell. rewrite tseq_row by exact Hgn. rewrite (decoded_row_crossed i _ Hg).
   rewrite nth_indep with (d' := (fun combo => Some (nth i combo 0)) []) by (rewrite map_length, all_combos_length; exact Ht).
   rewrite (map_nth (fun combo => Some (nth i combo 0))). reflexivity.
@@ -518,10 +642,9 @@ Proof. intros Hg. unfold get_cell. rewrite fill_act_row by exact Hg. reflexivity
 (** levels of the factors of [act_design] in the candidate *)
 Lemma act_cell g t : In g (fl_act fb) -> t < T -> exists l, get_cell s g t = Some l /\ l < nlevels fb g.
 Proof.
-  intros Hg Ht. unfold get_cell. rewrite tseq_row by (apply (act_lt fb HF); exact Hg).
-  pose proof (decoded_row_cells k g Hk Hg) as Hcells.
-  pose proof (Forall_nth' _ _ t None Hcells ltac:(rewrite decoded_row_length by assumption; lia)) as [l [El [Hl _]]].
-  exists l. auto.
+  intros Hg Ht. destruct (K_or_ucd fb HF Hq g Hg) as [HK | Hu].
+  - unfold get_cell. rewrite tseq_row by exact HK. apply K_cell; assumption.
+  - rewrite (ucd_cell g t Hu Ht). apply ucd_pick_spec; assumption.
 Qed.
 
 Lemma sem_args_eqb a b : Sem.args_eqb a b = Enum.args_eqb a b.
@@ -603,10 +726,16 @@ Proof.
     subst i. destruct (in_dec Nat.eq_dec f (fl_act fb)) as [Ha | Hna].
     - destruct (is_derived fb f) eqn:Edf.
       + rewrite (f0_sustain_derived fb HF f Ha Edf). cbn [Nat.ltb Nat.leb].
-        rewrite (factor_ok_ext S0 fs s f fd (fill_act_row f Ha)); [apply f0_crossed_derived_ok; assumption|].
-        intros w0 x Hw0 Hx. apply fill_act_row.
-        destruct (f0_sem_crossed_derived fb HF f fd Ha Edf H2) as (_ & d & w & _ & _ & Hder & Hdeps).
-        rewrite Hder in Hw0. inversion Hw0; subst w0. cbn [w_deps] in Hx. apply (Hdeps x Hx).
+        destruct (in_dec Nat.eq_dec f c) as [Hfc | Hfnc].
+        * rewrite (factor_ok_ext S0 fs s f fd (fill_act_row f Ha)); [apply f0_crossed_derived_ok; assumption|].
+          intros w0 x Hw0 Hx. apply fill_act_row.
+          destruct (f0_sem_crossed_derived fb HF f fd Hfc Edf H2) as (_ & d & w & _ & _ & Hder & Hdeps).
+          rewrite Hder in Hw0. inversion Hw0; subst w0. cbn [w_deps] in Hx. apply (Hdeps x Hx).
+        * rewrite (factor_ok_ext S0 fs s f fd (fill_act_row f Ha)).
+          -- apply f0_ucd_ok; [apply (ucdl_In fb HF Hq); auto | exact H2].
+          -- intros w0 x Hw0 Hx. apply fill_act_row.
+             destruct (f0_sem_ucd fb HF f fd Ha Hfnc Edf H2) as (d & w & _ & _ & _ & _ & Hder & Hdeps & _).
+             rewrite Hder in Hw0. inversion Hw0; subst w0. cbn [w_deps] in Hx. apply (Hdeps x Hx).
       + destruct (f0_sem_factor fb HF f fd Ha H2) as (_ & _ & _ & Hder). specialize (Hder Edf).
         rewrite (factor_ok_ext_basic S0 fs s f fd Hder (fill_act_row f Ha)). rewrite (f0_factor_ok f fd Ha Edf H2).
         destruct (1 <? sustain_of fb f) eqn:E1; [reflexivity|]. apply held_one.
